@@ -6,6 +6,7 @@ import (
 
 	"github.com/veraison/psatoken"
 
+	"verif/harness/extprof"
 	"verif/harness/model"
 	"verif/harness/mon"
 	"verif/harness/obs"
@@ -186,31 +187,46 @@ func (s encSnap) equal(t encSnap) bool {
 	return s.cborErr == t.cborErr && s.jsonErr == t.jsonErr && bytes.Equal(s.cbor, t.cbor) && bytes.Equal(s.json, t.json)
 }
 
-func freshAbstract(p int) *model.Claims {
-	a := &model.Claims{P: p}
-	if p == 1 {
-		a.Canon = model.P1Name
-	} else {
-		a.Canon = model.P2Name
-	}
+func freshAbstract(p int, canon string) *model.Claims {
+	a := &model.Claims{P: p, Canon: canon}
 	a.Profile = model.SP(a.Canon)
 	return a
 }
 
+// c11Canon picks the implementation a history runs on: the base profile or
+// the registered extension profile embedding it (same setters, same rules).
+func c11Canon(g *model.Gen, p int) string {
+	ext := g.R.Intn(3) == 0
+	switch {
+	case p == 1 && ext:
+		return extprof.ExtP1Name
+	case p == 1:
+		return model.P1Name
+	case ext:
+		return extprof.ExtP2Name
+	}
+	return model.P2Name
+}
+
 func runC11(c *mon.Ctx) {
-	c.Rule("histories = random sequences of 1..40 setter calls (all 9 setters of both profiles, values drawn from the C01 classes incl. every byte length 0..80, valid and invalid interleaved, repeats) on a NewClaims object; after EVERY call the full observation (Validate + 10 getters + component getters) is compared with a last-successful-write-wins model, a refused call must also leave both encodings byte-identical, the setter must accept iff the reference predicate accepts; at the end the same final values are replayed once each in shuffled order on a fresh object and both encodings must be byte-identical. Also single calls: every setter x every length 0..80. distinct_nontrivial = distinct (profile, setter, value-class, accepted?) + distinct history signatures")
+	c.Rule("histories = random sequences of 1..40 setter calls (all 9 setters of both profiles, values drawn from the C01 classes incl. every byte length 0..80, valid and invalid interleaved, repeats) on a NewClaims object of either base profile or (a third of the histories) of the registered extension profile embedding it; after EVERY call the full observation (Validate + 10 getters + component getters) is compared with a last-successful-write-wins model, a refused call must also leave both encodings byte-identical, the setter must accept iff the reference predicate accepts; at the end the same final values are replayed once each in shuffled order on a fresh object and both encodings must be byte-identical. Also single calls: every setter x every length 0..80. distinct_nontrivial = distinct (profile, setter, value-class, accepted?) + distinct history signatures")
 	g := model.NewGen(c.Seed*7001 + int64(c.Shard))
 	nh := c.N(30000, 1500000)
-	pnames := map[int]string{1: model.P1Name, 2: model.P2Name}
+	if err := extprof.Register(extprof.ExtP2Name, extprof.ExtP1Name); err != nil {
+		c.Violation("harness/register", err.Error(), nil)
+		return
+	}
 	for h := 0; h < nh; h++ {
 		p := 1 + g.R.Intn(2)
 		length := 1 + g.R.Intn(40)
-		cl, err := psatoken.NewClaims(pnames[p])
+		canon := c11Canon(g, p)
+		c.Count("histories-on:" + canon)
+		cl, err := psatoken.NewClaims(canon)
 		if err != nil {
 			c.Violation("C11/NewClaims", "NewClaims failed: "+err.Error(), nil)
 			return
 		}
-		a := freshAbstract(p)
+		a := freshAbstract(p, canon)
 		var trace []string
 		var finals = map[string]setOp{}
 		hsig := fmt.Sprintf("P%d", p)
@@ -282,7 +298,7 @@ func runC11(c *mon.Ctx) {
 			c.Sample("history", map[string]any{"profile": p, "trace": trace, "final": a.Expect().String()})
 		}
 		// order / repetition independence of the encoding
-		b, _ := psatoken.NewClaims(pnames[p])
+		b, _ := psatoken.NewClaims(canon)
 		var names []string
 		for n := range finals {
 			names = append(names, n)
@@ -316,14 +332,16 @@ func runC11(c *mon.Ctx) {
 	}
 	// single calls: every byte setter x every length
 	idx := 0
-	for p := 1; p <= 2; p++ {
+	for pi := 0; pi < 4; pi++ {
+		p := 1 + pi%2
+		canon := map[int]string{0: model.P1Name, 1: model.P2Name, 2: extprof.ExtP1Name, 3: extprof.ExtP2Name}[pi]
 		for n := 0; n <= 80; n++ {
 			for _, st := range []string{"SetImplID", "SetBootSeed", "SetNonce", "SetInstID"} {
 				idx++
 				if !c.Mine(idx) {
 					continue
 				}
-				cl, _ := psatoken.NewClaims(pnames[p])
+				cl, _ := psatoken.NewClaims(canon)
 				b := g.Bytes(n)
 				var err error
 				var ok bool
@@ -349,6 +367,8 @@ func runC11(c *mon.Ctx) {
 			}
 		}
 	}
+	c.Floor("histories-on:"+extprof.ExtP1Name, 200)
+	c.Floor("histories-on:"+extprof.ExtP2Name, 200)
 	c.Floor("accepted", 1000)
 	c.Floor("refused", 1000)
 	c.Floor("complete-valid-states", 100)
